@@ -11,3 +11,16 @@ def ys():
     out = list(YS)
     del YS[:]
     return out
+
+
+def abandon_then(gen_func, a0, b0):
+    """Start gen_func(a0), take one value, drop it - and at once run gen_func(b0) to its end."""
+    g = gen_func(a0)
+    next(g, None)
+    del g
+    g2 = gen_func(b0)
+    try:
+        while True:
+            next(g2)
+    except StopIteration as e:
+        return e.value
